@@ -103,6 +103,7 @@ func c02(r *core.Run) {
 	r.Rule("W2", "With finds every handler that matches (shared with C06.R12): the matcher records a literal or placeholder node as the match only when it has a handler, otherwise it goes on to the placeholder and wildcard siblings; else With reports an error and runs nothing for an id that a registered handler matches", 1)
 	r.Rule("W3", "With looks the handler up without touching shared state (shared with C06.R6): no function reachable from Mux.GetHandler writes Mux / node / handler state or appends into a slice held there; With, Resource and the listener run lookups concurrently, so a shared scratch buffer makes With report an error for a resource that has a handler, or queue the callback under another resource's group", 1)
 	r.Rule("W4", "callbacks of a group share its queue (the group-tag obligations of C06.R2, shared with C01.F4): the index of a ${tag} part of a group template is used for nothing but indexing the tokens - a template whose tag sits on the first token must not evaluate to the empty id, which is the marker for 'no group' and makes every callback an independent work item, started in any order", 1)
+	r.Rule("N3", "accepted means started, and started ends only in Shutdown: the state word that runWith tests is written only by the start-up and shutdown functions (the Serve entry points, serve, the function that runs the close protocol) - a connection handler that parks the state elsewhere while the connection is down makes runWith drop every callback submitted in that time, although Serve is running and no Shutdown began", 3)
 	r.Rule("W6", "With runs nothing for a name no handler matches (shared with C06.R7): in the lookup the remainder of the name after the mux path is taken only after the byte following the path was tested to be the token separator - otherwise With(\"testmodel\", cb) on service \"test\" finds the handler of test.model, returns nil and runs cb", 1)
 	r.Rule("W5", "WithResource and query callbacks join the queue of the resource they were handed (shared with C01.F2): the group a Resource / Request reports is the routed Match.Group - the evaluated id -, every enqueue is keyed by it, and an unset group defaults to the full resource name; a request carrying the raw option string instead queues WithResource(request, cb) and its query callbacks under another id, where they overtake the callbacks submitted before them", 8)
 	r.Rule("H2", "an accepted callback has a worker (shared with C03.S2): every worker is started before the service is published as started - the state from which enqueue accepts callbacks; a callback accepted earlier than that sits in the queue with nobody to run it (an OnServe callback waiting for its own With callback never returns)", 1)
@@ -250,6 +251,7 @@ func c02(r *core.Run) {
 	c06PureLookup(r, "W3")
 	c01GroupArg(r, "W5", a, root)
 	c06PrefixBoundary(r, "W6")
+	c02StateWrittenOnlyByLifecycle(r, "N3", a, root)
 	if ro := resolveMuxRolesFor(r, "W4"); ro != nil {
 		c06Units(r, "W4", root, ro, true)
 	}
@@ -818,4 +820,38 @@ func c02WorkQueueShape(r *core.Run, rule string, a *svcAnchors, root []*ssa.Func
 		}
 	}
 
+}
+
+// c02StateWrittenOnlyByLifecycle is C02.N3.
+func c02StateWrittenOnlyByLifecycle(r *core.Run, rule string, a *svcAnchors, root []*ssa.Function) {
+	p := r.P
+	ops, _ := stateOps(root, a)
+	allowed := map[*ssa.Function]string{a.Serve: "serve", a.Close: "closeFn"}
+	for _, c := range callsTo(root, a.Serve) {
+		allowed[core.Outermost(c.Parent())] = "Serve entry point"
+	}
+	for _, c := range callsTo(root, a.Close) {
+		allowed[core.Outermost(c.Parent())] = "shutdown"
+	}
+	// private helpers of those (a setState / transition helper) count with them
+	for fn, why := range allowed {
+		for _, h := range p.Helpers(fn) {
+			if _, ok := allowed[h]; !ok && p.IsPrivateHelper(h) {
+				allowed[h] = "helper of " + why
+			}
+		}
+	}
+	n := 0
+	for _, op := range ops {
+		if op.Op != "cas" && op.Op != "store" {
+			continue
+		}
+		n++
+		fn := core.Outermost(op.Fn)
+		why, ok := allowed[fn]
+		r.Check(ok, rule, core.FuncName(op.Fn), fmt.Sprintf("state-written-by-lifecycle-function:%s(%d)", op.Op, op.New), p.InstrPos(op.Instr), "written by "+why, "the state word is written outside start-up and shutdown: whenever it is not 'started', runWith returns without queueing - callbacks submitted while this function has parked the state are dropped although Serve is running and Shutdown has not begun (With still returns nil)")
+	}
+	if n == 0 {
+		r.Unres(rule, "state-writes", "no write of the state word found")
+	}
 }
